@@ -41,6 +41,9 @@ impl LintContext {
             .chain(problem_tokens)
             .chain(sequel_tokens)
             .flat_map(|idx| document.get_token(idx))
+            // Zero-width tokens (paragraph breaks) cover no text. Whether one happens to sit
+            // inside the window depends on the rest of the document, not on this lint.
+            .filter(|t| !t.span.is_empty())
             .map(|t| {
                 let mut fat = t.to_fat(document.get_source());
 
